@@ -939,9 +939,11 @@ def minimise(case, fs, col):
         cand.update(st_)
         if cand == best or (cand.get("el") is not None and len(cand["el"]) <= 1) or ("clk" in st_ and clk_done):
             continue
+        if not cand.get("clk") or cand["clk"] <= 0:
+            continue
         try:
             f2 = _same(col.filter(evaluate(cand)[0]), clause, key)
-        except (HarnessError,) + REJECT:
+        except Exception:      # a reduction candidate outside the domain (or one the sources reject) is simply not a reduction
             continue
         if f2:
             best, best_fs = cand, f2
